@@ -5,7 +5,7 @@
 From Coq Require Import ZArith List Bool Lia Sorting.Sorted.
 From Low Require Import Lib.Bits Lib.BitSeq Lib.Val Lib.SortedZ_tree4 Spec.Bmtree Spec.AllPathsSpec Spec.OfSpec
   Spec.FromStr32Spec Model.BmtreePath Model.BmtreeIndex Model.BmtreeAllPaths Model.BitmapOf Model.FromStr32 Lib.Lex Lib.Bytes
-  Proofs.BmtreeAllPathsProofs Proofs.BmtreeDecodeProofs Proofs.BmtreeWinProofs Proofs.BmtreeAllPathsLaws Proofs.BmtreeDecodeDebugProofs Proofs.BmtreeC04Checkers Proofs.BmtreeKeysRoundTrip Proofs.BmtreeSubtree_c04 Run.C04.
+  Proofs.BmtreeAllPathsProofs Proofs.BmtreeDecodeProofs Proofs.BmtreeWinProofs Proofs.BmtreeAllPathsLaws Proofs.BmtreeDecodeDebugProofs Proofs.BmtreeC04Checkers Proofs.BmtreeKeysRoundTrip Proofs.BmtreeSubtree_c04 Proofs.BmtreeDecodeFast Run.C04.
 Import ListNotations.
 Open Scope Z_scope.
 
@@ -219,6 +219,31 @@ Example C04_keys_nonvacuous :
   PathsOf [[0x61]; [0x61; 0x62]; [0x61; 0x62]; [0x62]] 3 6 true = Some [0x20000003e; 0x20000003f; 0x40000003e] /\
   map (PathToIndex 96) [0x20000003e; 0x20000003f; 0x40000003e] = map Some [3; 4; 6] /\
   Of [3; 4; 6] None = Some [88] /\ Decode 96 [88] = Some [0x20000003e; 0x20000003f; 0x40000003e] /\ Height 96 = 6.
+Proof. vm_compute. repeat split; reflexivity. Qed.
+
+(** * the linear-time evaluator used by the correspondence run on trees higher than 10
+    (one word per 1-bit of the bitmap, found by descending the tree) is the model, in both builds,
+    and the Decode checker is the specification *)
+Theorem C04_decode_fast : forall T bm, 1 <= T < 2 ^ 31 -> zlen bm < 2 ^ 31 ->
+  Decode T bm = Some (fast_decode T (Z.to_nat (Height T)) bm) /\
+  Decode_debug T bm = Some (fast_decode T (Z.to_nat (Height T)) bm).
+Proof. exact (fun T bm HT Hl => conj (decode_fast T bm HT Hl) (decode_debug_fast T bm HT Hl)). Qed.
+Print Assumptions C04_decode_fast.
+
+Theorem C04_nth_word : forall h T k, 0 <= T < 2 ^ (Z.of_nat h + 1) -> 0 <= k < T ->
+  nth (Z.to_nat k) (map (enc h) (stored_nodes T h)) 0 = nth_word h T k.
+Proof. exact nth_word_spec. Qed.
+Print Assumptions C04_nth_word.
+
+Theorem C04_checker_decode : forall T bm, 1 <= T < 2 ^ 31 ->
+  check_decode T (Z.to_nat (Height T)) bm =
+  select_by (flat bm) 0 (map (enc (Z.to_nat (Height T))) (stored_nodes T (Z.to_nat (Height T)))).
+Proof. exact check_decode_eq. Qed.
+Print Assumptions C04_checker_decode.
+
+Example C04_decode_fast_nonvacuous :
+  fast_decode 114 6 [3; 2 ^ 49 + 2 ^ 50; 1] = [0x20; 0x3c; 0x3f0000003f] /\
+  Decode 114 [3; 2 ^ 49 + 2 ^ 50; 1] = Some [0x20; 0x3c; 0x3f0000003f] /\ Height 114 = 6.
 Proof. vm_compute. repeat split; reflexivity. Qed.
 
 (** * the correspondence run's own formulation (Run/C04.v): on every in-domain case the model side of
